@@ -205,3 +205,78 @@ Theorem C16_bodyless_request_has_no_body : forall preserve x, q_body (x_req x) =
   he_post (har_entry preserve x) = None /\ ve_body (vcr_entry preserve x) = None.
 Proof. exact bodyless_has_no_post. Qed.
 Print Assumptions C16_bodyless_request_has_no_body.
+
+(* ---- lifecycle of the writer thread up to process exit (Part 5) -------------------- *)
+(* queue of Initialize / Process / Finalize, a writer that takes one item at a time and may be arbitrarily slow,
+   shutdown = put Finalize + join with a timeout that may expire at ANY point, then sys.exit: Click closes the
+   handles it owns, the interpreter waits for a non-daemon writer and kills a daemon one.
+   For every history, every interleaving and every point at which the join times out: once the process has
+   exited, the file holds what the writer loop produces on the whole queue and the writer has ended in the
+   state the loop ends in - for the non-daemon thread of the code as it is and report files of its own
+   (--report / --report-dir) *)
+Theorem C16_exit_flushes_backlog_partial : forall c w h sched,
+  lc_daemon c = false -> report_dir_owned c = true ->
+  lexited (lrun c w h sched) = true ->
+  lresult (lrun c w h sched) = (fst (written w h), LEnded (snd (written w h))).
+Proof. exact exit_flushes_backlog. Qed.
+Print Assumptions C16_exit_flushes_backlog_partial.
+
+(* with the theorems about the loop: every delivered exchange is in the file, the footer is written *)
+Theorem C16_report_complete_at_exit_har : forall sanitize preserve h sched,
+  lexited (lrun lconf_report_dir {| w_fmt := HAR; w_sanitize := sanitize; w_preserve := preserve |} h sched) = true ->
+  lresult (lrun lconf_report_dir {| w_fmt := HAR; w_sanitize := sanitize; w_preserve := preserve |} h sched) = (complete (delivered h), LEnded Closed).
+Proof. exact report_complete_at_exit_har. Qed.
+Print Assumptions C16_report_complete_at_exit_har.
+
+Theorem C16_report_complete_at_exit_vcr_partial : forall sanitize preserve h sched, no_raising_codec h = true ->
+  lexited (lrun lconf_report_dir {| w_fmt := VCR; w_sanitize := sanitize; w_preserve := preserve |} h sched) = true ->
+  lresult (lrun lconf_report_dir {| w_fmt := VCR; w_sanitize := sanitize; w_preserve := preserve |} h sched) = (complete (delivered h), LEnded Closed).
+Proof. exact report_complete_at_exit_vcr. Qed.
+Print Assumptions C16_report_complete_at_exit_vcr_partial.
+
+(* the hypothesis is satisfiable in the worst way: for every configuration and history the process does exit when
+   the join times out with the WHOLE backlog still in the queue and nothing in the file *)
+Theorem C16_exit_reachable_with_full_backlog : forall c w h,
+  l_queue (lrun c w h (map (fun _ => SMain) (cassette_queue h) ++ [STimeout])) = cassette_queue h
+  /\ l_out (lrun c w h (map (fun _ => SMain) (cassette_queue h) ++ [STimeout])) = []
+  /\ lexited (lrun c w h (sched_full_backlog h)) = true.
+Proof. exact exit_reachable_with_full_backlog. Qed.
+Print Assumptions C16_exit_reachable_with_full_backlog.
+
+(* the code as it is with --report-vcr-path / --report-har-path (click.File handles): Click closes the handle at
+   context teardown, the non-daemon writer dies on its next write: exchange 3 of three is lost, the writer Died *)
+Theorem C16_exit_flushes_backlog_refuted : exists w h sched i,
+  lexited (lrun lconf_report_path w h sched) = true /\ In i (delivered h)
+  /\ ~ In i (map fst (fst (lresult (lrun lconf_report_path w h sched))))
+  /\ snd (lresult (lrun lconf_report_path w h sched)) = LEnded Died.
+Proof. exact exit_flushes_backlog_refuted_ex. Qed.
+Print Assumptions C16_exit_flushes_backlog_refuted.
+
+Theorem C16_click_owned_file_loses_backlog :
+  delivered h_three = [1; 2; 3]
+  /\ lexited (lrun lconf_report_path vcr_default h_three sched_slow_writer) = true
+  /\ lresult (lrun lconf_report_path vcr_default h_three sched_slow_writer) = ([(1, true)], LEnded Died)
+  /\ lresult (lrun lconf_report_path har_sanitized h_three sched_slow_writer) = ([(1, true)], LEnded Died)
+  /\ lresult (lrun lconf_report_dir vcr_default h_three sched_slow_writer) = (complete [1; 2; 3], LEnded Closed)
+  /\ lresult (lrun lconf_report_dir har_sanitized h_three sched_slow_writer) = (complete [1; 2; 3], LEnded Closed).
+Proof. exact click_owned_loses_backlog. Qed.
+Print Assumptions C16_click_owned_file_loses_backlog.
+
+(* every configuration, daemon or not, Click-owned or not: when no join timed out *)
+Theorem C16_join_returned_then_complete_partial : forall c w h sched, join_never_timed_out sched = true ->
+  lexited (lrun c w h sched) = true ->
+  lresult (lrun c w h sched) = (fst (written w h), LEnded (snd (written w h))).
+Proof. exact join_returned_then_complete. Qed.
+Print Assumptions C16_join_returned_then_complete_partial.
+
+(* sentinel (seeded C16_c): were the writer a daemon thread, the same schedules would leave one exchange of three
+   (or nothing at all) in the file, the thread killed in its backlog; the code as it is creates a non-daemon thread *)
+Theorem C16_daemon_writer_would_lose_backlog :
+  lexited (lrun lconf_daemon vcr_default h_three sched_slow_writer) = true
+  /\ lresult (lrun lconf_daemon vcr_default h_three sched_slow_writer) = ([(1, true)], LKilled)
+  /\ lresult (lrun lconf_daemon har_sanitized h_three sched_slow_writer) = ([(1, true)], LKilled)
+  /\ lresult (lrun lconf_daemon vcr_default h_three (sched_full_backlog h_three)) = ([], LKilled)
+  /\ lresult (lrun lconf_report_dir vcr_default h_three (sched_full_backlog h_three)) = (complete [1; 2; 3], LEnded Closed)
+  /\ lc_daemon lconf_report_dir = false /\ lc_daemon lconf_report_path = false.
+Proof. exact daemon_writer_loses_backlog. Qed.
+Print Assumptions C16_daemon_writer_would_lose_backlog.
